@@ -41,7 +41,10 @@ FAULTS = {
                            'lui x8, NOCONST', 'c.li x8, NOCONST', 'dw %position(START, NOCONST)'],
     'malformed_expression': ['addi x1, x1, 1 +', 'K2 = * 2', 'K1 = (1', 'K1 = 12 +', 'K2 = (1', 'K2 = 1)', 'K2 = 1 2', "K2 = 'ab'", "K2 = '\\'", 'li x1, 1 +', 'dw (1', 'lw x1, x2, (1',
                              'db 1 +* 2', 'K2 = 5 5', 'addi x8, x8, )', 'pack <I ((3)', 'sw x1, x2, 4 4', 'li x5, 0x', 'K2 = 0b12', 'dh 12ab', 'lui x5, %hi(', 'li x5, %hi((1)',
-                             'j (', 'call (', 'tail (1', 'beqz x8, (', 'bgt x1, x2, (', 'jal (', 'bnez x8, )'],
+                             'j (', 'call (', 'tail (1', 'beqz x8, (', 'bgt x1, x2, (', 'jal (', 'bnez x8, )',
+                             # quoted text that is no character literal, in every position that takes a number
+                             "bytes 1 2 'ab'", "bytes ''", "shorts 7 '\\q' 9", "ints 'xy' 1", "longs ''", "longlongs 1 'abc'", "db 'ab'", "dw ''", "dh 'a' 'b'",
+                             "pack <B 'ab'", "addi x1, x1, 'ab'", "li x5, ''", "align 'ab'", "lw x8, 'ab'(x8)", "K2 = ''"],
     'expression_evaluation': ['K2 = 1 << -1', 'addi x1, x1, 1 << -1', 'li x5, 1 << (K1 - 20)', 'dw 1 >> -2', 'K2 = 7 // 0', 'db 7 % 0', 'lui x5, 1 << (K1 - 13)',
                               'K2 = K1 // (K1 - 12)', 'sw x1, x2, 4 % 0', 'pack <I 1 << -4'],
     'non_integer': ['K2 = 1.5', 'K1 = 1.5', 'K3 = 0.5 + K1', 'K2 = 4 / 2', 'K2 = "s"', 'addi x1, x1, 1.5', 'dw 2.0', 'li x5, 1e3', 'db 3 / 1', 'K2 = None', 'lw x8, 0.0(x8)', 'dh [1]',
@@ -270,7 +273,7 @@ def run_shard(sh, deadline):
 
 # planted lines that would emit an odd number of bytes if accepted: planted only where no pc-relative reference of the base
 # program crosses them (start / end), so that the plant stays the *only* faulty line
-ODD = {'include_bytes .', 'include_bytes ' + 'b' * 300 + '.bin', 'include_bytes /dev/null/x', 'DB 256', 'BYTES 1 2 256', 'Pack <B 256', 'db 7 % 0', 'db 256', 'bytes 1 2 256', 'pack <B 256', 'db NOCONST', 'db 1 +* 2', 'db 3 / 1', 'include_bytes nosuch.bin'}
+ODD = {"bytes 1 2 'ab'", "bytes ''", "db 'ab'", "pack <B 'ab'", 'include_bytes .', 'include_bytes ' + 'b' * 300 + '.bin', 'include_bytes /dev/null/x', 'DB 256', 'BYTES 1 2 256', 'Pack <B 256', 'db 7 % 0', 'db 256', 'bytes 1 2 256', 'pack <B 256', 'db NOCONST', 'db 1 +* 2', 'db 3 / 1', 'include_bytes nosuch.bin'}
 
 
 def plan(tier, seed):
